@@ -133,6 +133,7 @@ pub struct HistKnobs {
     pub max_ops: usize,
     pub min_ops: usize,
     pub update_heavy: bool,
+    pub long_thread_texts: bool,
     pub max_clients: usize,
     pub min_clients: usize,
     pub model: ModelKnobs,
@@ -141,7 +142,7 @@ pub struct HistKnobs {
 
 impl HistKnobs {
     pub fn for_focus(focus: Focus) -> Self {
-        Self { focus, max_ops: 24, min_ops: 1, update_heavy: false, max_clients: 4, min_clients: 1, model: ModelKnobs::default(), max_text: 10000 }
+        Self { focus, max_ops: 24, min_ops: 1, update_heavy: false, long_thread_texts: false, max_clients: 4, min_clients: 1, model: ModelKnobs::default(), max_text: 140_000 }
     }
     pub fn miri() -> Self {
         Self {
@@ -149,6 +150,7 @@ impl HistKnobs {
             max_ops: 4,
             min_ops: 1,
             update_heavy: false,
+            long_thread_texts: false,
             max_clients: 3,
             min_clients: 2,
             model: ModelKnobs { max_window: 2, max_type_window: 1, core_only: true, extreme_values: false, allow_big_windows: false, max_entries: 3, want_tags: None },
@@ -224,6 +226,19 @@ fn gen_update(rng: &mut Rng, k: &HistKnobs, ctor: bool, recent: &mut Vec<Vec<cha
             recent.push(cs);
         }
     };
+    if k.update_heavy {
+        // soak runs: mostly short, tagged, valid annotations (so that whatever happens at the
+        // n-th successful update is visible in the tags), some raw texts in between
+        let a = gen::gen_annotated_tagged(rng, k.max_text, false);
+        return match rng.below(5) {
+            0 => Op::UpdateRaw { s: a.chars.iter().collect(), owned: rng.chance(1, 2) },
+            1 | 2 => Op::UpdateTokenized { s: gen::render_tokenized(&a), expect: Some(expect_tokenized(&a)) },
+            _ => {
+                let a = gen::gen_annotated_tagged(rng, k.max_text, true);
+                Op::UpdatePartial { s: gen::render_partial(&a), expect: Some(expect_partial(&a)) }
+            }
+        };
+    }
     match rng.below(3) {
         0 => {
             let s = if related { related_chars(rng, recent).into_iter().take(k.max_text).collect() } else { clip(gen::gen_raw_input(rng), k.max_text) };
@@ -397,7 +412,18 @@ pub fn gen_plan(rng: &mut Rng, k: &HistKnobs) -> HistPlan {
                 }
             }
         }
-        if k.min_clients >= 2 {
+        if k.min_clients >= 2 && k.long_thread_texts {
+            // thread tier, long-text plan: inputs of 1024+ characters (a size class of its own
+            // for anything that treats long inputs specially), predicted twice in a row and
+            // swapped between the clients
+            ops.clear();
+            let n = rng.range(1024, 1100);
+            let own = thread_text(rng, n);
+            for _ in 0..2 {
+                ops.push(Op::UpdateRaw { s: own.clone(), owned: false });
+                ops.push(Op::Predict(0));
+            }
+        } else if k.min_clients >= 2 {
             // thread tier: several short predict segments on texts of different lengths, so that
             // concurrent predict / fill_tags calls on the shared predictors overlap often
             for _ in 0..2 {
@@ -409,7 +435,7 @@ pub fn gen_plan(rng: &mut Rng, k: &HistKnobs) -> HistPlan {
                 }
             }
         }
-        if k.focus == Focus::C08 {
+        if k.focus == Focus::C08 && !k.long_thread_texts {
             // the statement's closing segment: update_raw(x); predict; [fill_tags]
             let last = if !recent.is_empty() && rng.chance(1, 3) { related_chars(rng, &recent).into_iter().collect() } else { clip(gen::gen_text(rng), k.max_text) };
             ops.push(Op::UpdateRaw { s: last, owned: rng.chance(1, 2) });
@@ -420,7 +446,15 @@ pub fn gen_plan(rng: &mut Rng, k: &HistKnobs) -> HistPlan {
         }
         clients.push(ops);
     }
-    if k.min_clients >= 2 && rng.chance(1, 2) {
+    if k.min_clients >= 2 && k.long_thread_texts {
+        // every client also re-predicts the text of its neighbour
+        let texts: Vec<String> = clients.iter().map(|c| match &c[0] { Op::UpdateRaw { s, .. } => s.clone(), _ => String::new() }).collect();
+        let n = clients.len();
+        for (i, c) in clients.iter_mut().enumerate() {
+            c.push(Op::UpdateRaw { s: texts[(i + 1) % n].clone(), owned: false });
+            c.push(Op::Predict(0));
+        }
+    } else if k.min_clients >= 2 && rng.chance(1, 2) {
         // thread tier: same program shape on every client (different texts), so that threads
         // running in near lock-step contend for whatever the predictor might share
         let shape = clients[0].clone();
